@@ -74,7 +74,8 @@ RULE = ("random fermionic arrays (all symmetries, every dualness pattern, even/o
         "real/complex): <x|x> through conj (all-ket or phase_dual) in both operand orders equals the exact integer "
         "sum |x|^2; conj/dagger involutions; dagger == transpose(conj) for both settings of phase_dual; 2-3 tensor "
         "networks conjugated tensor by tensor with bra-like dangling legs flipped, along random contraction routes. "
-        "non-trivial: mixed dualness or odd parity")
+        "non-trivial: mixed dualness or odd parity"
+        '; arrays subsuming up to three labels; conj/dagger of twice-fused arrays')
 ANCHORS = {"fermionic_core.py": ["conj", "dagger", "oddpos_dag", "phase_flip", "tensordot_fermionic",
                                  "resolve_combined_oddpos"]}
 ASSUMPTIONS = []
